@@ -400,6 +400,10 @@ def _b_amplitude_damping(ctx, spec, rng):
     _reject(ctx, "amplitude_damping", amplitude_damping, None, 0.5, -eps, what="prob<0")
     _reject(ctx, "amplitude_damping", amplitude_damping, None, 0.5, 1 + eps, what="prob>1")
     _reject(ctx, "amplitude_damping", amplitude_damping, np.eye(3) / 3, 0.5, 0.5, what="non-2x2")
+    _reject(ctx, "amplitude_damping", amplitude_damping, np.eye(2) / 2, -eps, 0.5, what="gamma<0[input-given]")
+    _reject(ctx, "amplitude_damping", amplitude_damping, np.eye(2) / 2, 1 + eps, 0.5, what="gamma>1[input-given]")
+    _reject(ctx, "amplitude_damping", amplitude_damping, np.eye(2) / 2, 0.5, -eps, what="prob<0[input-given]")
+    _reject(ctx, "amplitude_damping", amplitude_damping, np.eye(2) / 2, 0.5, 1 + eps, what="prob>1[input-given]")
 
 
 def _b_phase_damping(ctx, spec, rng):
@@ -424,6 +428,8 @@ def _b_phase_damping(ctx, spec, rng):
     _reject(ctx, "phase_damping", phase_damping, None, -eps, what="gamma<0")
     _reject(ctx, "phase_damping", phase_damping, None, 1 + eps, what="gamma>1")
     _reject(ctx, "phase_damping", phase_damping, np.eye(3) / 3, 0.5, what="non-2x2")
+    _reject(ctx, "phase_damping", phase_damping, np.eye(2) / 2, -eps, what="gamma<0[input-given]")
+    _reject(ctx, "phase_damping", phase_damping, np.eye(2) / 2, 1 + eps, what="gamma>1[input-given]")
 
 
 def _b_bitflip(ctx, spec, rng):
@@ -448,6 +454,8 @@ def _b_bitflip(ctx, spec, rng):
     _reject(ctx, "bitflip", bitflip, None, -eps, what="prob<0")
     _reject(ctx, "bitflip", bitflip, None, 1 + eps, what="prob>1")
     _reject(ctx, "bitflip", bitflip, np.eye(3) / 3, 0.5, what="non-2x2")
+    _reject(ctx, "bitflip", bitflip, np.eye(2) / 2, -eps, what="prob<0[input-given]")
+    _reject(ctx, "bitflip", bitflip, np.eye(2) / 2, 1 + eps, what="prob>1[input-given]")
 
 
 def _b_pauli_channel(ctx, spec, rng):
@@ -482,6 +490,8 @@ def _b_pauli_channel(ctx, spec, rng):
     neg = prob.copy()
     neg[0], neg[1] = -0.1, neg[1] + neg[0] + 0.1
     _reject(ctx, "pauli_channel", pauli_channel, neg, what="negative")
+    _reject(ctx, "pauli_channel", pauli_channel, bad, False, np.eye(d) / d, what="sum!=1[input-given]")
+    _reject(ctx, "pauli_channel", pauli_channel, neg, True, np.eye(d) / d, what="negative[input-given]")
     for m in (3, 5, 8):
         w = np.full(m, 1.0 / m)
         _reject(ctx, "pauli_channel", pauli_channel, w, what=f"length-{m}")
